@@ -126,13 +126,17 @@ def mutate(text, r):
 INTLITS = ["0", "1", "2", "3", "7", "8", "10", "31", "32", "63", "64", "127", "128", "255", "256", "32767", "32768", "65535", "65536", "2147483647", "2147483648",
            "4294967295", "4294967296", "9223372036854775807", "0x7fffffffffffffff", "0x8000000000000000", "0xffffffffffffffff", "18446744073709551615U",
            "1U", "1L", "1UL", "1LL", "0xffu", "0x80000000", "0x80000000L", "077", "0b1011", "-1", "-2", "-128", "-2147483648L", "'a'", "'\\0'", "'\\377'", "'\\n'"]
-FLTLITS = ["0.0", "1.0", "0.5", "1.5", "0.1", "2.5e-3", "1e10", "1e308", "1.7976931348623157e308", "4.9e-324", "1e-400", "3.4028235e38f", "1.17549435e-38f", "0.1f", "16777217.0f",
+FLTLITS = ["(0.0/0.0)", "(1e308*10)", "(-(1e308*10))", "(-0.0)", "((1e308*10)-(1e308*10))", "(0.0f/0.0f)", "0.0", "1.0", "0.5", "1.5", "0.1", "2.5e-3", "1e10", "1e308", "1.7976931348623157e308", "4.9e-324", "1e-400", "3.4028235e38f", "1.17549435e-38f", "0.1f", "16777217.0f",
            "0x1p-1074", "0x1.fffffffffffffp1023", "0x1.8p1", "1e4932L", "3.14159265358979323846L", "9007199254740993.0", "123456789012345678.0", "5e-1", ".5", "5."]
 
 
 def gen_expr(r, depth, flt):
     if depth <= 0 or r.below(4) == 0:
         return r.pick(FLTLITS if flt and r.below(3) else INTLITS)
+    if not flt and r.below(8) == 0:
+        # a floating operand in a boolean / relational / cast position of an integer constant expression
+        f = gen_expr(r, depth - 1, True)
+        return r.pick(["(!%s)", "(%s ? 3 : 5)", "(%s && 1)", "(%s || 0)", "(%s == %s)", "(%s < 1.0)", "((int)(%s > 0.5))", "((_Bool)%s)"]).replace("%s", f)
     k = r.below(10)
     a = gen_expr(r, depth - 1, flt)
     if k == 0:
